@@ -47,13 +47,15 @@ var entries = map[string]entryFn{}
 
 // The LZMA reader of github.com/ulikunitz/xz allocates the dictionary the 13-byte stream header
 // announces (bytes 1..4) before it decodes anything, and fiano passes the stream to it
-// unexamined.  A header announcing more than the memory ceiling kills the worker; such inputs are
-// recognised here and reported with their own tag (they are not executed: the abort was confirmed
-// by running them, see props/C20.json), so that any OTHER crash of the decoders stays visible.
+// unexamined.  A header announcing a large dictionary kills the worker under the memory ceiling
+// (from about 400 MiB on, depending on what the heap still holds); inputs announcing 256 MiB or
+// more are recognised here and reported with their own tag without being executed (the abort was
+// confirmed by running them, see props/C20.json), so that any OTHER crash of the decoders stays
+// visible.  Smaller dictionaries are executed and tagged by the allocation meter.
 func lzmaDictBeyondCeiling(name string, b []byte) (uint32, bool) {
 	if (name == "lzma" || name == "lzmax86") && len(b) >= 13 {
 		d := binary.LittleEndian.Uint32(b[1:5])
-		return d, d >= 768<<20
+		return d, d >= 256<<20
 	}
 	return 0, false
 }
@@ -70,7 +72,7 @@ func totalOp(name string, f entryFn) Op {
 		runtime.ReadMemStats(&m1)
 		alloc := m1.TotalAlloc - m0.TotalAlloc
 		if alloc > allocBase+allocFactor*uint64(len(b)) {
-			if d, _ := lzmaDictBeyondCeiling(name, b); uint64(d) > allocBase {
+			if d, _ := lzmaDictBeyondCeiling(name, b); d >= 32<<20 {
 				return fmt.Sprintf("FAIL third-party-lzma-dict-alloc header announces a dictionary of %d bytes, allocated=%d input=%d", d, alloc, len(b))
 			}
 			return fmt.Sprintf("FAIL alloc-beyond-input allocated=%d input=%d", alloc, len(b))
